@@ -181,7 +181,8 @@ def t_r2(p: Project, rep: Report):
         if h is None:
             continue
         rps, _ = h.return_paths()
-        bad = [rtxt for pth, rtxt, sc in rps if rtxt == "None"]
+        # a literal None returned where `enforce_required(..) is None` was just established IS the checked value
+        bad = [rtxt for pth, rtxt, sc in rps if rtxt == "None" and not any(w_ is True and a_.startswith("self.enforce_required(") and a_.endswith(" is None") for a_, w_ in sc.items())]
         rep.check("T-R2", f"{name}.convert[str]:no-bare-None", not bad, "an empty value is returned as None without enforce_required" if bad else "", tloc(p, h.fn))
 
 
@@ -309,6 +310,12 @@ def guard_table(p: Project, rep: Report, rule: str, label: str, ci: ClassInfo, f
 
     vp = params_of(fn)[1]
     lookup = make_lookup(p, ci.module, ci)
+    try:
+        from .flat import flat as _flat
+
+        fn = _flat(p, ci.module, fn, ci)  # a private helper may issue the warning / build the message
+    except Exception:
+        pass
 
     def events(c):
         d = dotted(c.func) or ""
